@@ -46,6 +46,8 @@ struct MTopic {
     groups: BTreeMap<u32, MGroup>,
     /// payloads per partition (index 0 = partition 1)
     msgs: Vec<Vec<Vec<u8>>>,
+    /// consumer offsets stored on partition 1: (is_group, consumer / group id) -> offset
+    offsets: BTreeMap<(bool, u32), u64>,
 }
 
 #[derive(Debug, Clone)]
